@@ -39,6 +39,9 @@ type IndexScenario struct {
 	FailAt  int         `json:"fail_at"`
 	Clients [][]IndexOp `json:"clients"`
 	Retry   bool        `json:"retry,omitempty"` // after a failed invalidate, retry the same labels without faults
+	// Sweep: after the clients finished, InvalidateByLabels(Sweep...) runs without faults; afterwards
+	// no key that was ever labelled may be left in a cache of its name.
+	Sweep []string `json:"sweep,omitempty"`
 }
 
 func init() {
@@ -112,7 +115,35 @@ func genC15(r *rand.Rand, run int, _ string) *Scenario {
 			op.Labels = append(op.Labels, "never-used")
 		}
 
+		if chance(r, 0.15) {
+			// the same label twice in one call
+			op.Labels = append(op.Labels, op.Labels[r.IntN(len(op.Labels))])
+		}
+
 		return op
+	}
+
+	if run%12 == 11 {
+		// concurrent AddLabels while an InvalidateByLabels call hits a deleter failure; afterwards a
+		// fault-free sweep over all labels must remove every key that was ever labelled
+		ix.Clients = [][]IndexOp{{inv()}}
+		ix.FailAt = r.IntN(4)
+		ix.Sweep = labels
+
+		nc := 1 + r.IntN(3)
+		for c := 0; c < nc; c++ {
+			var ops []IndexOp
+
+			for i := 0; i < 1+r.IntN(2); i++ {
+				ops = append(ops, IndexOp{Kind: "addLabels", Name: pick(r, names...), Key: r.IntN(nk), Labels: []string{pick(r, labels...)}})
+			}
+
+			ix.Clients = append(ix.Clients, ops)
+		}
+
+		sc.Sched = genSched(r, 60)
+
+		return sc
 	}
 
 	switch run % 3 {
@@ -290,8 +321,45 @@ func runIndex(e *env) {
 
 	e.checkPanics()
 
-	if !sequential {
+	if !sequential && len(sc.Sweep) == 0 {
 		r.checkConcurrent()
+	}
+
+	if len(sc.Sweep) > 0 && len(out.Violations) == 0 {
+		r.failAt = -1
+		sw := &IndexOp{Kind: "invalidate", Labels: sc.Sweep}
+
+		var rec *ixRec
+
+		e.s.Spawn("sweep", func() { rec = r.exec(99, sw) })
+
+		if !e.runAll("C15.STUCK") {
+			return
+		}
+
+		e.checkPanics()
+
+		if rec != nil && rec.panicV == nil {
+			if rec.err != nil {
+				out.violate("C15.R5", "sweep-failed", "fault-free InvalidateByLabels(%v) after the clients finished returned %v", sc.Sweep, rec.err)
+			}
+
+			for name, keys := range r.labelled(sc.Sweep) {
+				for i, c := range sc.Caches {
+					if c.Name != name || !r.added[i] {
+						continue
+					}
+
+					for k := range keys {
+						if r.present(i, k) {
+							out.violate("C15.R5", "key-fell-out-of-index-concurrent", "key %q was labelled under %q (AddLabels concurrent with a failing InvalidateByLabels); a later fault-free InvalidateByLabels(%v) returned nil but the key is still in cache #%d: the association was lost", k, name, sc.Sweep, i)
+						}
+					}
+				}
+			}
+
+			out.probe("sweep_after_concurrent_failure")
+		}
 	}
 
 	out.NonTrivial = len(r.recs) > 0
@@ -698,6 +766,7 @@ func runInvalidator(e *env) {
 				zs.Yield("op")
 
 				if call.SleepNs > 0 {
+					e.out.fault("clock_jump")
 					zs.Sleep(dur(call.SleepNs))
 				}
 
@@ -785,9 +854,11 @@ func runInvalidator(e *env) {
 			out.violate("C17.R1", "overlap", "accepted Invalidate calls c%d.%d and c%d.%d ran their callbacks at the same time", a.client, a.idx, b.client, b.idx)
 		}
 
-		// accept instants lie in [invT, first callback enterT]; consecutive accepts must be >= SkipInterval apart
-		if gapMax := b.cbs[0].enterT - a.invT; gapMax < int64(si) {
-			out.violate("C17.R2", "spacing", "accepted Invalidate calls c%d.%d and c%d.%d are less than SkipInterval=%v apart (at most %v)", a.client, a.idx, b.client, b.idx, si, time.Duration(gapMax))
+		// An accepted call stamps lastRun and immediately starts its first callback (no yield point in
+		// between), so the instants at which consecutive accepted calls start running callbacks are
+		// their accept instants: they must be >= SkipInterval apart.
+		if gap := b.cbs[0].enterT - a.cbs[0].enterT; gap < int64(si) {
+			out.violate("C17.R2", "spacing", "accepted Invalidate calls c%d.%d and c%d.%d started running callbacks only %v apart, SkipInterval=%v", a.client, a.idx, b.client, b.idx, time.Duration(gap), si)
 		}
 
 		out.probe("two_accepted_calls")
